@@ -3050,7 +3050,9 @@ def _reorder_var(
     k = min(sizes, key=sizes.get)
     _shift(bdd, end, k, levels)
     m_ = len(bdd)
-    if sizes[k] != m_:
+    # `dd.autoref.Function.__del__` can dereference nodes
+    # while sifting, so fewer nodes can remain
+    if sizes[k] < m_:
         raise AssertionError((sizes[k], m_))
     if m_ > m:
         raise AssertionError((m_, m))
